@@ -9,7 +9,7 @@
 (***************************************************************************)
 EXTENDS Pyxis, Props, Json
 
-CONSTANTS MaxFuncs, Idxs, TSizes, CCs, ImplCCs, Ptrs
+CONSTANTS MaxFuncs, Idxs, TSizes, CCs, ImplCCs, Ptrs, NoRecv
 
 MIdxs == {None, 0, 1, 2, 4}
 MSizes == {None, 0, 1, 2, 3, 5}
@@ -19,15 +19,17 @@ TSizesAll == {None, 0 - 2, 0, 1, 2, 3, 4}
 Sig(i, idx, cc) ==
   CASE i = 1 -> Func("f1", "pub", <<>>, <<ArgM>>, TNone, None, idx, "")
     [] i = 2 -> Func("f2", "pub", <<>>, <<ArgC, Arg("a", TNm("u32"))>>, TNm("u32"), None, idx, cc)
-    [] OTHER -> Func("f3", "priv", <<>>, <<ArgM, Arg("p", TCPtr(TNm("u8"))), Arg("b", TNm("u64"))>>,
+    [] i = 3 -> Func("f3", "priv", <<>>, <<ArgM, Arg("p", TCPtr(TNm("u8"))), Arg("b", TNm("u64"))>>,
                      TMPtr(TNm("V")), None, idx, "")
+    (* a virtual function without receiver (its wrapper is outside the compilable fragment) *)
+    [] OTHER -> Func("s4", "pub", <<>>, <<Arg("n", TNm("i16"))>>, TNone, None, idx, "")
 
 ImplFn(cc, recv) ==
   Func("h", "pub", <<>>, (IF recv THEN <<ArgC>> ELSE <<>>) \o <<Arg("x", TNm("i32"))>>, TNm("i32"), 4096, None, cc)
 
-MkInput(ptr, n, idxs, size, cc, icc, recv, vdoc) ==
+MkInput(ptr, n, idxs, size, cc, icc, recv, vdoc, norecv) ==
   LET V == [TypeDef("V", "pub", <<Field("x", "pub", <<>>, TNm("u32"), None, FALSE)>>)
-              EXCEPT !.vft = [Vft(size, [i \in 1..n |-> Sig(i, idxs[i], cc)]) EXCEPT !.doc = vdoc],
+              EXCEPT !.vft = [Vft(size, [i \in 1..n |-> Sig(i, idxs[i], cc)] \o (IF norecv THEN <<Sig(4, None, "")>> ELSE <<>>)) EXCEPT !.doc = vdoc],
                      !.align = ptr]
       pad == Field("y", "pub", <<>>, TNm("u32"), None, FALSE)
       V2 == IF ptr = 8 THEN [V EXCEPT !.fields = Append(@, pad)] ELSE V
@@ -36,10 +38,11 @@ MkInput(ptr, n, idxs, size, cc, icc, recv, vdoc) ==
 
 MCInit ==
   /\ \E ptr \in Ptrs, n \in 0..MaxFuncs, i1 \in Idxs, i2 \in Idxs, i3 \in Idxs, size \in TSizes,
-        cc \in CCs, icc \in ImplCCs, recv \in BOOLEAN, vdoc \in {<<>>, <<" the table">>} :
+        cc \in CCs, icc \in ImplCCs, recv \in BOOLEAN, vdoc \in {<<>>, <<" the table">>}, norecv \in NoRecv :
         /\ (n < 1 => i1 = None) /\ (n < 2 => (i2 = None /\ cc = "")) /\ (n < 3 => i3 = None)
         /\ /\ (vdoc # <<>> => (recv /\ icc = ""))
-        /\ input = MkInput(ptr, n, <<i1, i2, i3>>, size, cc, icc, recv, vdoc)
+        /\ (norecv => (vdoc = <<>> /\ icc = "" /\ recv /\ size = None))
+        /\ input = MkInput(ptr, n, <<i1, i2, i3>>, size, cc, icc, recv, vdoc, norecv)
   /\ InitRest
 
 MCSpec == MCInit /\ [][Next]_vars /\ WF_vars(Next)
